@@ -29,11 +29,14 @@ func (k Keeper) PlaceDutchAuctionBid(ctx sdk.Context, auctionID uint64, bidder s
 		return 0, types.ErrorInGettingLockedVault
 	}
 	//Price data of the token from market module
-	debtToken, _ := k.market.GetTwa(ctx, auctionData.DebtAssetId)
+	debtToken, found := k.market.GetTwa(ctx, auctionData.DebtAssetId)
 	debtPrice := sdk.NewDecFromInt(sdk.NewInt(int64(debtToken.Twa)))
 	//only if debt token is CMST , we consider it as $1
 	if liquidationData.IsDebtCmst {
 		debtPrice = sdk.NewDecFromInt(sdk.NewInt(int64(1000000)))
+	} else if !found || !debtToken.IsPriceActive {
+		// the bid is converted into collateral with this price: refuse to trade on a missing or stale feed
+		return bidId, types.ErrorPriceNotFound
 	}
 	//Check to update bid.Amount
 	fullBid := false
